@@ -60,13 +60,67 @@ CHECKS["C06"] = {
     "assumptions": ["a client never holds the same query twice at once (match keeps a set of clients per query)"],
 }
 
+CACHE_RULE = ("Scenario: 1..4 targets, one stream task per target playing 4..60 generated notifications (single / multi-update / atomic / "
+              "exact, subtree and wildcard deletes / empty; timestamps drawn around the stored ones so that older, equal, equal-with-"
+              "different-value, newer and far-future all occur; shared prefix objects with spare capacity) and lifecycle calls (Reset, "
+              "Remove, Add, Sync, Connect, ConnectError), a clock task that drifts and jumps the collector's clock (cache.Now) forwards "
+              "and backwards, optional refresh (UpdateMetadata/UpdateSize) and reader tasks; future threshold 0 / small / large, "
+              "event-driven emulation on/off. After the run every target's operations are replayed through the reference model: "
+              "result class, change-feed entries per operation, stored content and timestamps after every operation, feed replay == "
+              "content, input immutability, retroactive mutation of delivered notifications, reset/remove clauses, counters. "
+              "Non-trivial: >= 3 operations judged.")
+for _p in ("C02", "C03", "C14", "C15"):
+    CHECKS[_p] = {
+        "pkg": "cacheh",
+        "quick": {"wall_s": 25, "race_wall_s": 15, "race_max_runs": 800},
+        "thorough": {"wall_s": 360, "race_wall_s": 180, "race_max_runs": 1500},
+        "rule": CACHE_RULE,
+        "real": ["cache, ctree, metadata, latency, path, value, errlist (instrumented)", "protobuf runtime"],
+        "stub": ["glog (discarded)"],
+        "assumptions": ["one update stream per target (DESIGN.md 5 rule 3)", "the collector clock is cache.Now/latency.Now (existing seams)"],
+    }
+
 UNDER_CONSTRUCTION = "check under construction, not claimed yet"
 NOT_APPLICABLE = {p: UNDER_CONSTRUCTION for p in ["C%02d" % i for i in range(1, 21)]}
 NOT_APPLICABLE["C19"] = ("pure functions of their input (path indexing, value conversion): no schedule, clock, fault, peer or "
                          "interleaving for a simulation to act on; deciding it here would be input generation in simulator "
                          "vocabulary (DESIGN.md 8)")
 
+_CACHE_NOTE = ("Trusts the reference model in sim/model/cachemodel (written from the statements; index paths, value canonicalisation and "
+               "wildcard matching in sim/gen are the harness's own code). Where the statement leaves a choice (same timestamp and value in "
+               "a different encoding; a trailing glob one element past a leaf; suppression of an unchanged value) either outcome is accepted.")
 LEVELS = {
+    "C02": {
+        "text": "Seeded exploration of notification histories with out-of-order, equal and duplicate timestamps, all future-threshold settings and a "
+                "collector clock that is frozen, advancing or jumping both ways; after every operation the result class and the stored content "
+                "(paths, values, timestamps) are compared with the reference model. Evidence, not proof.",
+        "design_ref": "7 C02", "note": _CACHE_NOTE,
+        "technique": "deterministic simulation (simulated, faulted collector clock) with an executable reference model checked operation by operation",
+    },
+    "C03": {
+        "text": "Same histories plus Reset/Remove/Add and notifications that share prefix objects with spare capacity; the recorded change feed is "
+                "compared per operation with the model's expected entries, replayed and compared with the stored content after every operation, "
+                "inputs are compared byte-wise before/after the call and delivered notifications are re-serialised at the end to catch "
+                "retroactive corruption through aliasing. Evidence, not proof.",
+        "design_ref": "7 C03", "note": _CACHE_NOTE,
+        "technique": "deterministic simulation with feed-replay equivalence and per-operation feed expectations from a reference model",
+    },
+    "C14": {
+        "text": "2..4 targets with overlapping paths, one concurrent stream task per target issuing updates and lifecycle calls under the seeded "
+                "scheduler; per-target models (isolation is the oracle: any cross-target effect makes a target disagree with the model of its "
+                "own stream), announced deletes must cover what was stored, metadata back to initial after Reset, Remove makes the target "
+                "unknown and is announced. Stream termination on Remove is checked by the subscribe harness. Evidence, not proof.",
+        "design_ref": "7 C14", "note": _CACHE_NOTE,
+        "technique": "deterministic simulation: seeded scheduler over per-target stream tasks + per-target reference models",
+    },
+    "C15": {
+        "text": "Lifecycle-heavy histories with UpdateMetadata/UpdateSize refresh tasks interleaved by the seeded scheduler; invariants "
+                "targetLeaves == stored non-metadata leaves == added - deleted after every operation, counter deltas of every update operation "
+                "against the model's classification, latestTimestamp after a final refresh, and the in-simulation race detector on the same runs. "
+                "Latency windows are checked by the latency sub-scenarios. Evidence, not proof.",
+        "design_ref": "7 C15", "note": _CACHE_NOTE + " Counter deltas are only lower-bounded while a refresh task runs concurrently (its own metadata updates pass through the same counters).",
+        "technique": "deterministic simulation: seeded scheduler + conservation-law oracles + in-simulation race detection",
+    },
     "C06": {
         "text": "Seeded search over interleavings of register / remove / update tasks on the real matcher with interval (must/may) oracles "
                 "written from the statement, plus complete coverage of the finite query x path space to length 4 and the Query-implies-"
